@@ -444,6 +444,14 @@ func TestC11(t *testing.T) {
 			{"a /* c */ b", "column after inline block comment"},
 			{"a /* c\n d */ b", "column after multi-line block comment"},
 		}
+		// a minus directly in front of a digit: a sign after everything that cannot end an operand, the binary operator after
+		// everything that can (every token kind on the left, with and without blanks)
+		for _, left := range []string{"a", "a1", "1", "10", "\"s\"", "`r`", "true", "false", "nil", "f(x)", "(a)", "a[i]", "a[1]", "s[1:2]", "len(s)", "[]int{1}[0]",
+			"(", "[", "{", ",", "=", ":=", "+", "-", "*", "/", "%", "==", "!=", "<", "<=", ">", ">=", "&&", "||", "!", ":", "return", "case", "+=", "-=", "print(", "\n"} {
+			for _, mid := range []string{"-1", " -1", "- 1", " - 1", "-10", "-a", "--1", "- -1", "-1-1", "-1 -1"} {
+				fixed = append(fixed, struct{ src, note string }{"x " + left + mid + " y", "minus in front of a digit"})
+			}
+		}
 		for _, f := range fixed {
 			want, _, lerr := lexref.Lex(f.src)
 			if lerr != nil {
